@@ -144,7 +144,8 @@ def toAndroid (bcp47 : Text) : Except PyErr Text := do
 /-- the conversion part of `Matcher.match` (resource qualifier -> BCP 47): first `b+..+..` is
     normalised, then the legacy language codes are mapped back, then `-rXX` becomes `-XX` -/
 def toStandard (android : Text) : Except PyErr Text := do
-  let l0 := replaceAll [98, 43] [] (android.length + 1) android
+  -- `if locale.startswith("b+"): locale = locale[2:]` (only the leading marker is stripped)
+  let l0 := if [98, 43].isPrefixOf android then android.drop 2 else android
   let l1 := replaceAll [43] [45] (l0.length + 1) l0
   let s := l1.toArray
   let l2 ← subWithE s Gen.Pat.paths_matcher_Matcher_match_0 (fun st =>
